@@ -117,6 +117,16 @@ Theorem C10_char_token_value_platform_octal p cpp cs ds :
 Proof. exact (char_token_value_platform_octal p cpp cs ds). Qed.
 Print Assumptions C10_char_token_value_platform_octal.
 
+(* refuted for hexadecimal escapes with more than two digits: Token::isCChar counts '\x0ff' as two
+   characters (replaceEscapeSequences reads at most two hex digits), the plain-char adjustment is skipped
+   (finding, replayed on the binary) *)
+Theorem C10_long_hex_escape_char_token_refuted :
+  exists p s z n, In p Gen_platforms /\ p_sign p = 117 /\
+                  char_literal_to_ll s = Some z /\ narrow_nbytes s = Some 1 /\ token_char_count s = Some n /\
+                  (forall cpp, char_token_value p cpp n z <> char_value_on p 255).
+Proof. exact long_hex_escape_char_token_refuted. Qed.
+Print Assumptions C10_long_hex_escape_char_token_refuted.
+
 (* every entry of the table regenerated from Platform::set and platforms/*.xml is well-formed
    (finite statement: the table is rewritten from the source on every run) *)
 Theorem C10_platform_table_sane : forallb platform_sane Gen_platforms = true.
